@@ -11,7 +11,7 @@ RULE = ('seeded random accepted generator arguments (ha / sm / hr / spa, n <= 4 
 
 
 def cases(rng, tier):
-    for t in range(40 if tier == 'quick' else 1500):
+    for t in range(80 if tier == 'quick' else 1500):
         mp = rng.choice(['ha', 'sm', 'hr', 'spa'])
         n1 = rng.randint(1, 4); n2 = n1 if mp == 'sm' else rng.randint(1, 3); n3 = rng.randint(1, 4)
         pmax = rng.randint(1, n2); pmin = rng.randint(1, pmax)
